@@ -498,6 +498,84 @@ fn hd_compound<'a>(c: &'a CompoundCommand, out: &mut Vec<&'a HereDoc>) {
     }
 }
 
+// ---------------------------------------------------------------------------
+// known finding F14: command substitutions accepted through the `$((` fallback
+// ---------------------------------------------------------------------------
+
+fn f14_content(c: &str) -> bool {
+    let mut t = c;
+    while let Some(r) = t.strip_prefix("\\\n") {
+        t = r;
+    }
+    t.starts_with('(')
+}
+fn f14_text_unit(u: &TextUnit) -> bool {
+    match u {
+        TextUnit::CommandSubst { content, .. } => f14_content(content),
+        TextUnit::BracedParam(b) => match &b.modifier {
+            Modifier::Switch(s) => f14_word(&s.word),
+            Modifier::Trim(t) => f14_word(&t.pattern),
+            _ => false,
+        },
+        TextUnit::Arith { content, .. } => content.0.iter().any(f14_text_unit),
+        _ => false,
+    }
+}
+fn f14_word(w: &Word) -> bool {
+    w.units.iter().any(|u| match u {
+        WordUnit::Unquoted(t) => f14_text_unit(t),
+        WordUnit::DoubleQuote(t) => t.0.iter().any(f14_text_unit),
+        _ => false,
+    })
+}
+fn f14_redirs(rs: &[Redir]) -> bool {
+    rs.iter().any(|r| f14_word(r.body.operand()))
+}
+fn f14_list(l: &List) -> bool {
+    l.0.iter().any(|i| {
+        f14_pipeline(&i.and_or.first) || i.and_or.rest.iter().any(|(_, p)| f14_pipeline(p))
+    })
+}
+fn f14_pipeline(p: &Pipeline) -> bool {
+    p.commands.iter().any(|c| match &**c {
+        Command::Simple(s) => {
+            s.assigns.iter().any(|a| match &a.value {
+                Value::Scalar(w) => f14_word(w),
+                Value::Array(ws) => ws.iter().any(f14_word),
+            }) || s.words.iter().any(|(w, _)| f14_word(w))
+                || f14_redirs(&s.redirs)
+        }
+        Command::Compound(f) => f14_compound(&f.command) || f14_redirs(&f.redirs),
+        Command::Function(f) => {
+            f14_word(&f.name) || f14_compound(&f.body.command) || f14_redirs(&f.body.redirs)
+        }
+    })
+}
+fn f14_compound(c: &CompoundCommand) -> bool {
+    match c {
+        CompoundCommand::Grouping(l) => f14_list(l),
+        CompoundCommand::Subshell { body, .. } => f14_list(body),
+        CompoundCommand::For { name, values, body } => {
+            f14_word(name)
+                || values.as_ref().is_some_and(|v| v.iter().any(f14_word))
+                || f14_list(body)
+        }
+        CompoundCommand::While { condition, body } | CompoundCommand::Until { condition, body } => {
+            f14_list(condition) || f14_list(body)
+        }
+        CompoundCommand::If { condition, body, elifs, r#else } => {
+            f14_list(condition)
+                || f14_list(body)
+                || elifs.iter().any(|e| f14_list(&e.condition) || f14_list(&e.body))
+                || r#else.as_ref().is_some_and(f14_list)
+        }
+        CompoundCommand::Case { subject, items } => {
+            f14_word(subject)
+                || items.iter().any(|i| i.patterns.iter().any(f14_word) || f14_list(&i.body))
+        }
+    }
+}
+
 /// The text that has to follow the printed single-line form so that the
 /// here-documents of the tree get their contents back: one body + delimiter
 /// line per here-document.  `None` if some body cannot be written back (a
@@ -549,7 +627,7 @@ impl Input for Counting {
 #[derive(Clone, Debug, PartialEq)]
 enum Parsed {
     /// (tree without bodies, tree with bodies, printed text, #here-docs, text to append for re-parsing)
-    Tree { term: String, term_bodies: String, printed: String, heredocs: usize, bodies: Option<String> },
+    Tree { term: String, term_bodies: String, printed: String, heredocs: usize, bodies: Option<String>, f14: bool },
     Err(String),
     Panic(String),
     Timeout,
@@ -607,7 +685,8 @@ fn parse_once(src: &str) -> Parsed {
                     Some((n, b)) => (n, Some(b)),
                     None => (usize::MAX, None),
                 };
-                Parsed::Tree { term, term_bodies, printed, heredocs, bodies }
+                let f14 = f14_list(&l);
+                Parsed::Tree { term, term_bodies, printed, heredocs, bodies, f14 }
             }));
             match r {
                 Ok(p) => p,
@@ -1395,6 +1474,13 @@ const CORPUS: &[&str] = &[
     "echo \"`a\\\\\n\nb`\"",
     "echo `a\\\\\n$b`",
     ">x foo\\",
+    // known finding F14 (open): `$((` fallback
+    "(echo $(('(' ) ) )",
+    "echo $((\\( ) ) ;",
+    "case x in ($(('(' ) ) ) a;; esac",
+    "a=($(('(' ) ) )",
+    "(echo $((a) ) )",
+    "echo $((a); (b)) $( (a))",
     "<f a=1\\",
     ">x \\",
     ">x a=(b) c\\",
@@ -1616,7 +1702,21 @@ impl Emitter {
             Parsed::Tree { printed, .. } if !printed.is_empty() => Some(src.to_string()),
             _ => None,
         };
-        w.push(&term, &json, &[], key);
+        // known finding F14: the tree has a `$(`-substitution whose content starts
+        // with `(` and the round trip fails
+        let failed = match (&o.first, &o.second) {
+            (Parsed::Tree { term: t1, printed: p1, .. }, Some(Parsed::Tree { term: t2, printed: p2, .. })) => {
+                t1 != t2 || p1 != p2
+            }
+            (Parsed::Tree { .. }, Some(_)) => true,
+            _ => false,
+        };
+        let f14 = matches!(&o.first, Parsed::Tree { f14: true, .. });
+        if f14 {
+            w.count("tree:with-f14-class-substitution");
+        }
+        let tags: Vec<&str> = if f14 && failed { vec!["F14"] } else { vec![] };
+        w.push(&term, &json, &tags, key);
     }
 }
 
